@@ -30,10 +30,15 @@ __CPROVER_ensures(RET == NULL || (__CPROVER_is_fresh(RET, sizeof(cbor_item_t)) &
 __CPROVER_ensures(RET == NULL || (g_live == OLD(g_live) + 2 && g_malloc_calls == OLD(g_malloc_calls) + 2 &&
                                   g_free_calls == OLD(g_free_calls) && g_last_req == size * sizeof(cbor_item_t *)));
 
+/* the data pointer is assignable (and the old block releasable) only where growth can happen: a full
+ * indefinite container.  Everywhere else the pointer provably stays what it was - which also keeps it a KNOWN
+ * pointer for callers that use this contract in replace mode. */
+#define CAN_GROW(meta) (meta.type == _CBOR_METADATA_INDEFINITE && meta.end_ptr == meta.allocated)
 #define PUSH_FRAME(arr, meta)                                                                   \
-  __CPROVER_assigns(ALLOC_GHOSTS, (arr)->data, (arr)->metadata, pushee->refcount)               \
+  __CPROVER_assigns(ALLOC_GHOSTS, (arr)->metadata, pushee->refcount)                            \
+  __CPROVER_assigns(CAN_GROW(meta) : (arr)->data)                                               \
   __CPROVER_assigns(meta.allocated > 0 : __CPROVER_object_whole((arr)->data))                   \
-  __CPROVER_frees(meta.type == _CBOR_METADATA_INDEFINITE : (arr)->data)
+  __CPROVER_frees(CAN_GROW(meta) : (arr)->data)
 
 bool cbor_array_push(cbor_item_t *array, cbor_item_t *pushee)
 __CPROVER_requires(ALLOC_MODEL_BOUND && ARRAY_VALID(array) && ITEM_RW(pushee) && pushee->refcount < SIZE_MAX &&
@@ -62,17 +67,14 @@ __CPROVER_ensures((OLD(AR_META(array).type) == _CBOR_METADATA_INDEFINITE &&
 __CPROVER_ensures(RET ==> (AR_META(array).end_ptr == OLD(AR_META(array).end_ptr) + 1 &&
                            AR_META(array).end_ptr <= AR_META(array).allocated &&
                            pushee->refcount == OLD(pushee->refcount) + 1))
-/* storage not reallocated: the new element is in the next slot, every earlier element is still in place
- * (the slots are named through the OLD data pointer: see the note on replace-mode contracts in items_ops.h) */
 #define PUSH_GREW(meta) (RET && OLD(meta.type) == _CBOR_METADATA_INDEFINITE && OLD(meta.end_ptr) == OLD(meta.allocated))
-__CPROVER_ensures(!PUSH_GREW(AR_META(array)) ==>
-                  ((RET ==> ((cbor_item_t **)OLD(array->data))[OLD(AR_META(array).end_ptr)] == pushee) &&
-                   ((g_s.valid && g_k < OLD(AR_META(array).end_ptr)) ==> ((cbor_item_t **)OLD(array->data))[g_k] == g_s.item)))
-/* storage reallocated: a fresh block of the grown capacity holding the earlier elements and the new one */
+/* storage reallocated: a fresh block of the grown capacity (stated before anything is said about its contents) */
 __CPROVER_ensures(!PUSH_GREW(AR_META(array)) ||
-                  (__CPROVER_is_fresh(array->data, GROWN(OLD(AR_META(array).allocated)) * sizeof(cbor_item_t *)) &&
-                   AR_SLOTS(array)[OLD(AR_META(array).end_ptr)] == pushee &&
-                   (!(g_s.valid && g_k < OLD(AR_META(array).end_ptr)) || AR_SLOTS(array)[g_k] == g_s.item)))
+                  __CPROVER_is_fresh(array->data, GROWN(OLD(AR_META(array).allocated)) * sizeof(cbor_item_t *)))
+/* the new element is in the next slot; every earlier element is still in place, on success and on failure,
+ * across a reallocation too */
+__CPROVER_ensures(RET ==> AR_SLOTS(array)[OLD(AR_META(array).end_ptr)] == pushee)
+__CPROVER_ensures((g_s.valid && g_k < OLD(AR_META(array).end_ptr)) ==> AR_SLOTS(array)[g_k] == g_s.item)
 /* failure: everything exactly as before */
 __CPROVER_ensures(!RET ==> (AR_META(array).end_ptr == OLD(AR_META(array).end_ptr) &&
                             AR_META(array).allocated == OLD(AR_META(array).allocated) &&
@@ -122,9 +124,10 @@ __CPROVER_requires(ALLOC_MODEL_BOUND && MAP_VALID(item) && ITEM_RW(key) && key->
 __CPROVER_requires((MP_META(item).type == _CBOR_METADATA_INDEFINITE && MP_META(item).allocated > 0) ==> HEAP_BLOCK(item->data))
 __CPROVER_requires(!g_s.valid || g_k >= MP_META(item).end_ptr ||
                    (MP_PAIRS(item)[g_k].key == g_s.key && MP_PAIRS(item)[g_k].value == g_s.value))
-__CPROVER_assigns(ALLOC_GHOSTS, item->data, item->metadata, key->refcount)
+__CPROVER_assigns(ALLOC_GHOSTS, item->metadata, key->refcount)
+__CPROVER_assigns(CAN_GROW(MP_META(item)) : item->data)
 __CPROVER_assigns(MP_META(item).allocated > 0 : __CPROVER_object_whole(item->data))
-__CPROVER_frees(MP_META(item).type == _CBOR_METADATA_INDEFINITE : item->data)
+__CPROVER_frees(CAN_GROW(MP_META(item)) : item->data)
 __CPROVER_ensures(OLD(MP_META(item).type) == _CBOR_METADATA_DEFINITE ==>
                   (RET == (OLD(MP_META(item).end_ptr) < OLD(MP_META(item).allocated)) &&
                    g_realloc_calls == OLD(g_realloc_calls) && MP_META(item).allocated == OLD(MP_META(item).allocated) &&
@@ -141,18 +144,12 @@ __CPROVER_ensures((OLD(MP_META(item).type) == _CBOR_METADATA_INDEFINITE &&
 __CPROVER_ensures(RET ==> (MP_META(item).end_ptr == OLD(MP_META(item).end_ptr) + 1 &&
                            MP_META(item).end_ptr <= MP_META(item).allocated &&
                            key->refcount == OLD(key->refcount) + 1))
-__CPROVER_ensures(!PUSH_GREW(MP_META(item)) ==>
-                  ((RET ==> (((struct cbor_pair *)OLD(item->data))[OLD(MP_META(item).end_ptr)].key == key &&
-                             ((struct cbor_pair *)OLD(item->data))[OLD(MP_META(item).end_ptr)].value == NULL)) &&
-                   ((g_s.valid && g_k < OLD(MP_META(item).end_ptr)) ==>
-                    (((struct cbor_pair *)OLD(item->data))[g_k].key == g_s.key &&
-                     ((struct cbor_pair *)OLD(item->data))[g_k].value == g_s.value))))
 __CPROVER_ensures(!PUSH_GREW(MP_META(item)) ||
-                  (__CPROVER_is_fresh(item->data, GROWN(OLD(MP_META(item).allocated)) * sizeof(struct cbor_pair)) &&
-                   MP_PAIRS(item)[OLD(MP_META(item).end_ptr)].key == key &&
-                   MP_PAIRS(item)[OLD(MP_META(item).end_ptr)].value == NULL &&
-                   (!(g_s.valid && g_k < OLD(MP_META(item).end_ptr)) ||
-                    (MP_PAIRS(item)[g_k].key == g_s.key && MP_PAIRS(item)[g_k].value == g_s.value))))
+                  __CPROVER_is_fresh(item->data, GROWN(OLD(MP_META(item).allocated)) * sizeof(struct cbor_pair)))
+__CPROVER_ensures(RET ==> (MP_PAIRS(item)[OLD(MP_META(item).end_ptr)].key == key &&
+                           MP_PAIRS(item)[OLD(MP_META(item).end_ptr)].value == NULL))
+__CPROVER_ensures((g_s.valid && g_k < OLD(MP_META(item).end_ptr)) ==>
+                  (MP_PAIRS(item)[g_k].key == g_s.key && MP_PAIRS(item)[g_k].value == g_s.value))
 __CPROVER_ensures(!RET ==> (MP_META(item).end_ptr == OLD(MP_META(item).end_ptr) &&
                             MP_META(item).allocated == OLD(MP_META(item).allocated) &&
                             item->data == OLD(item->data) && key->refcount == OLD(key->refcount) && g_live == OLD(g_live)))
@@ -182,12 +179,15 @@ __CPROVER_requires(ALLOC_MODEL_BOUND && MAP_VALID(item) && ITEM_RW(pair.key) && 
 __CPROVER_requires((MP_META(item).type == _CBOR_METADATA_INDEFINITE && MP_META(item).allocated > 0) ==> HEAP_BLOCK(item->data))
 __CPROVER_requires(!g_s.valid || g_k >= MP_META(item).end_ptr ||
                    (MP_PAIRS(item)[g_k].key == g_s.key && MP_PAIRS(item)[g_k].value == g_s.value))
-__CPROVER_assigns(ALLOC_GHOSTS, item->data, item->metadata, pair.key->refcount, pair.value->refcount)
+__CPROVER_assigns(ALLOC_GHOSTS, item->metadata, pair.key->refcount, pair.value->refcount)
+__CPROVER_assigns(CAN_GROW(MP_META(item)) : item->data)
 __CPROVER_assigns(MP_META(item).allocated > 0 : __CPROVER_object_whole(item->data))
-__CPROVER_frees(MP_META(item).type == _CBOR_METADATA_INDEFINITE : item->data)
+__CPROVER_frees(CAN_GROW(MP_META(item)) : item->data)
 __CPROVER_ensures(OLD(MP_META(item).type) == _CBOR_METADATA_DEFINITE ==>
                   RET == (OLD(MP_META(item).end_ptr) < OLD(MP_META(item).allocated)))
 __CPROVER_ensures((OLD(MP_META(item).type) == _CBOR_METADATA_INDEFINITE && !RET) ==> g_refused)
+__CPROVER_ensures(!PUSH_GREW(MP_META(item)) ||
+                  __CPROVER_is_fresh(item->data, GROWN(OLD(MP_META(item).allocated)) * sizeof(struct cbor_pair)))
 __CPROVER_ensures(RET ==> (MP_META(item).end_ptr == OLD(MP_META(item).end_ptr) + 1 &&
                            MP_META(item).end_ptr <= MP_META(item).allocated &&
                            MP_PAIRS(item)[OLD(MP_META(item).end_ptr)].key == pair.key &&
